@@ -38,10 +38,10 @@ def observe (stepf : State → Op → State × Out) (d38 : Bool) (ops : List WOp
         go st' varIds rest (.node "o" [natList o.delivered, natList o.cleaned, T.ofNat o.count, natList bad] :: acc)
   T.list (go init [] ops [])
 
-/-- D38 (hand-set): AddEvent resolves the selection set with an empty variable map -/
-def d38Current : Bool := true
-
-def handle (_tb : Tables) (c impl : T) : String :=
+/-- D38 (read from `AddEvent` / `ResolveExecutable` by the translator): AddEvent resolves the selection set with an
+empty variable map -/
+def handle (tb : Tables) (c impl : T) : String :=
+  let d38Current := tb.eventVarsEmpty
   match c with
   | .node "c19" [ops] =>
     match (do let ops ← ops.asList; optMap decOp ops) with
@@ -53,6 +53,6 @@ def handle (_tb : Tables) (c impl : T) : String :=
       verdict impl cur alts (impl == specObs)
   | _ => "bad-op"
 
-def flags (_tb : Tables) : List (String × Bool) := [("D38", d38Current)]
+def flags (tb : Tables) : List (String × Bool) := [("D38", tb.eventVarsEmpty)]
 
 end Ggql.Driver.C19
